@@ -1,25 +1,33 @@
-(** The packet-level glue (RunGlue.handle_packet, mirror of connection.go handleFrames):
-    the first failing frame decides, whatever follows it in the packet. *)
+(** The packet-level glue (RunGlue.handle_packet, mirror of connection.go handleFrames): the first
+    frame whose handling fails ends the handling; what follows it can only change WHICH error the
+    packet fails with, and only when a qlog tracer makes the parser go on and a later frame is
+    malformed. *)
 From Coq Require Import List ZArith Bool.
 From V Require Import StreamsMap.Model StreamsMap.RunGlue.
 Import ListNotations.
 Open Scope Z_scope.
 
-Lemma handle_packet_first_error : forall pre g g1 fr0 f o s2 e fr rest,
-  handle_packet g pre = (g1, None, fr0) -> gframe_op f = Some o ->
+Lemma op_not_malformed : forall f o, gframe_op f = Some o -> is_malformed f = false.
+Proof. intros [] o H; try reflexivity; discriminate. Qed.
+
+Lemma handle_packet_first_error : forall tr pre g g1 fr0 f o s2 e fr rest,
+  handle_packet tr g pre = (g1, None, fr0) -> gframe_op f = Some o ->
   tstep (g_sm g1) o = (s2, RErr e, fr) ->
-  handle_packet g (pre ++ f :: rest) =
-    (mkG s2 (g_cancel g1) (g_final g1) (g_done g1) (g_nextA g1), Some e, fr0 ++ fr).
+  handle_packet tr g (pre ++ f :: rest) =
+    (mkG s2 (g_cancel g1) (g_final g1) (g_done g1) (g_nextA g1),
+     Some (if tr && existsb is_malformed rest then ErrFrameEncoding else e), fr0 ++ fr).
 Proof.
-  induction pre as [|p pre IH]; intros g g1 fr0 f o s2 e fr rest H G T; cbn [app handle_packet] in *.
-  - injection H as H1 H2. subst g1 fr0. rewrite G, T. reflexivity.
-  - destruct (gframe_op p) as [op|]; [|eapply IH; eauto].
+  intros tr. induction pre as [|p pre IH]; intros g g1 fr0 f o s2 e fr rest H G T; cbn [app handle_packet] in *.
+  - injection H as H1 H2. subst g1 fr0. rewrite (op_not_malformed _ _ G), G, T. reflexivity.
+  - destruct (is_malformed p); [discriminate|].
+    destruct (gframe_op p) as [op|]; [|eapply IH; eauto].
     destruct (tstep (g_sm g) op) as [[s' x] f1].
     assert (K : forall g2 fr2,
-      (let '(g3, e0, fr3) := handle_packet g2 pre in (g3, e0, f1 ++ fr2 ++ fr3)) = (g1, None, fr0) ->
-      (let '(g3, e0, fr3) := handle_packet g2 (pre ++ f :: rest) in (g3, e0, f1 ++ fr2 ++ fr3)) =
-      (mkG s2 (g_cancel g1) (g_final g1) (g_done g1) (g_nextA g1), Some e, fr0 ++ fr)).
-    { intros g2 fr2 H2. destruct (handle_packet g2 pre) as [[g3 e3] fr3] eqn:HP.
+      (let '(g3, e0, fr3) := handle_packet tr g2 pre in (g3, e0, f1 ++ fr2 ++ fr3)) = (g1, None, fr0) ->
+      (let '(g3, e0, fr3) := handle_packet tr g2 (pre ++ f :: rest) in (g3, e0, f1 ++ fr2 ++ fr3)) =
+      (mkG s2 (g_cancel g1) (g_final g1) (g_done g1) (g_nextA g1),
+       Some (if tr && existsb is_malformed rest then ErrFrameEncoding else e), fr0 ++ fr)).
+    { intros g2 fr2 H2. destruct (handle_packet tr g2 pre) as [[g3 e3] fr3] eqn:HP.
       injection H2 as E1 E2 E3. subst g3 e3 fr0.
       rewrite (IH _ _ _ _ _ _ _ _ rest HP G T). rewrite <- !app_assoc. reflexivity. }
     destruct x; try discriminate; try (apply K; exact H);
@@ -27,9 +35,20 @@ Proof.
       match goal with H : (let '(_, _) := ?M in _) = _ |- _ => destruct M as [g2 fr2] end; apply K; exact H.
 Qed.
 
-(** frames behind the failing one have no effect at all: same verdict, same state, same frames *)
-Lemma handle_packet_rest_irrelevant : forall pre g g1 fr0 f o s2 e fr rest rest',
-  handle_packet g pre = (g1, None, fr0) -> gframe_op f = Some o ->
+(** frames behind the failing one are never handled: same state, same queued frames, and the packet
+    fails in any case; the error is the failing frame's unless (tracer and a malformed frame behind it) *)
+Lemma handle_packet_rest : forall tr pre g g1 fr0 f o s2 e fr rest,
+  handle_packet tr g pre = (g1, None, fr0) -> gframe_op f = Some o ->
   tstep (g_sm g1) o = (s2, RErr e, fr) ->
-  handle_packet g (pre ++ f :: rest) = handle_packet g (pre ++ f :: rest').
-Proof. intros. erewrite !handle_packet_first_error; eauto. Qed.
+  fst (fst (handle_packet tr g (pre ++ f :: rest))) = fst (fst (handle_packet tr g (pre ++ [f]))) /\
+  snd (handle_packet tr g (pre ++ f :: rest)) = snd (handle_packet tr g (pre ++ [f])) /\
+  snd (fst (handle_packet tr g (pre ++ f :: rest))) <> None /\
+  (tr = false \/ existsb is_malformed rest = false ->
+   snd (fst (handle_packet tr g (pre ++ f :: rest))) = Some e).
+Proof.
+  intros tr pre g g1 fr0 f o s2 e fr rest H G T.
+  rewrite (handle_packet_first_error tr pre g g1 fr0 f o s2 e fr rest H G T).
+  rewrite (handle_packet_first_error tr pre g g1 fr0 f o s2 e fr [] H G T). cbn [fst snd].
+  repeat split; [destruct (tr && _); discriminate|].
+  intros [Ht|Hm]; [subst tr; reflexivity|rewrite Hm, andb_false_r; reflexivity].
+Qed.
